@@ -1,12 +1,12 @@
 //@ unit scan_charref_w
 //@ props C02 C03 C01
 //@ kind W
-//@ def quick NIN=7
-//@ def thorough NIN=10
-//@ cbmc all --unwind 12 --unwinding-assertions
+//@ def quick NIN=11
+//@ def thorough NIN=13
+//@ cbmc all --unwind 16 --unwinding-assertions
 //@ cbmc all --arrays-uf-always
 //@ entry h_scanCharRef
-//@ note W: complete for every character sequence of length <= NIN after '&#' (covers every value <= 0x10FFFF in hex, 7 decimal digits in quick / all in thorough, plus overflowing digits)
+//@ note W: complete for every character sequence of length <= NIN after '&#' (quick: 9 hex digits = every value below 2^36, so a 32-bit accumulator that wraps is seen; thorough: 11 hex / 12 decimal digits)
 //@ note reader abstraction (trusted stub): ReaderMgr::peekNextChar/getNextChar/skippedChar deliver a symbolic character sequence INPUT[0..LEN) followed by end-of-input (0); emitError records the codes
 //@ note isXMLChar / isControlChar are nondet predicate tables here; that XMLCHAR||CONTROL equals production [2] Char of the reader's XML version is proved over the real tables in the chartab_* units
 #define VERIF_DEFINE_GHOSTS
